@@ -98,6 +98,26 @@ Eof ==
 
 ImplNext == Accept \/ XFail \/ FlushRetry \/ Eof
 
+(***************************************************************************)
+(* -I (CommandBuilder::execute, replace branch).  The loop above runs with *)
+(* -n 1 over lines; what is executed is the command (in.cmd0 bytes with    *)
+(* terminator) and the initial arguments with the line substituted:        *)
+(* in.tmpl[k] = [lit, occ] - lit literal bytes and occ occurrences of the  *)
+(* replace string.  Before it is run, the substituted command line goes    *)
+(* through a fresh copy of the size limiters, string by string; the first  *)
+(* that does not fit ends the run ("Argument too large", status 1).        *)
+(***************************************************************************)
+SubLen(t, len) == t.lit + t.occ * len
+RECURSIVE SubstFold(_, _, _, _)
+SubstFold(lens, k, zs, zy) ==
+  IF k > Len(lens) THEN [ok |-> TRUE, s |-> zs, sys |-> zy]
+  ELSE LET c == lens[k] + 1 IN
+       IF (in.s > 0 /\ ~(zs + c <= in.s)) \/ ~(zy + c + Ptr(in) <= in.sys) \/ ("argmax" \in DOMAIN in /\ c > in.argmax)
+       THEN [ok |-> FALSE, s |-> zs, sys |-> zy]
+       ELSE SubstFold(lens, k + 1, zs + c, zy + c + Ptr(in))
+SubstLens(len) == <<in.cmd0 - 1>> \o [k \in DOMAIN in.tmpl |-> SubLen(in.tmpl[k], len)]
+SubstMeasure(len) == SubstFold(SubstLens(len), 1, 0, 0)
+
 ImplFinished == status \in {"ok", "err"}
 ImplOutcome == [execs |-> execs, exit |-> IF status = "ok" THEN 0 ELSE 1]
 
